@@ -205,15 +205,15 @@ def main(argv):
     floor = getattr(mod, "frequency_floor", None)
     novel = []
     for b, f in sorted(first_fail.items()):
-        if b in kidx:
+        if kidx.lookup(b) is not None:
             continue
         if floor is not None and floor(b) > fail_buckets[b]:
             rare[b] = {"hits": fail_buckets[b], "case": f["case"], "detail": f["detail"][:300]}
             continue
         novel.append(b)
-    known_hit = Counter({b: n for b, n in fail_buckets.items() if b in kidx})
+    known_hit = Counter({b: n for b, n in fail_buckets.items() if kidx.lookup(b) is not None})
     for b in sorted(known_hit):
-        line = f"KNOWN-FINDING: property={prop} {kidx[b]['id']}: {kidx[b]['what']}"
+        line = f"KNOWN-FINDING: property={prop} {kidx.lookup(b)['id']}: {kidx.lookup(b)['what']}"
         if line not in known_lines:
             known_lines.append(line)
 
